@@ -44,7 +44,8 @@ DONE = {
   'Zone files: the line format is regenerated from _write_zone; Coq proves that for every one-character chain identifier other than blank and - and '
   'every integer residue number the written line is read back as exactly (chain, number), and that a whole zone file is read back as exactly the '
   'in-memory zone (so the three zone sources are interchangeable), and that the writer publishes atomically; and that on structures listing the same '
-  'atoms in the same order the fast and the SQL i-RMSD route use the same coordinate lists and report the same value for the same rotation. Route agreement in general: on generated pairs '
+  'atoms in the same order the fast and the SQL i-RMSD route use the same coordinate lists and report the same value for the same rotation, and that the SQL route selects '
+  'the same reference rows with and without a zone file. Route agreement in general: on generated pairs '
   '(incl. equal-sized chains, rank-differing chains, incomplete decoys, negative numbers) all call forms of each measure — {fast, SQL} x {svd, '
   'quaternion} x {no zone file, written, read back}, and both Fnat routes — are run and compared pairwise; zone files written by the library are '
   'compared with the model text and read back through both consumers.',
